@@ -3,10 +3,14 @@
 //! `HealthState`, driven in-process.
 //!
 //! Time: the back-off policy reads `Instant::now()`.  One model second is
-//! `SCALE` real seconds of `wait` (forced through the `cfg(sozu_verif)` hook in
-//! retry.rs), and "the clock advances by d" shrinks every policy's `wait` by
-//! `d*SCALE`; `last_try` is never moved, so nothing depends on the uptime of the
-//! machine nor on how long a case takes to run.
+//! `SCALE` real seconds: a window of `w` model seconds is `wait = w*SCALE`
+//! (the random length `fail()` draws is checked against its documented range,
+//! then replaced through the `cfg(sozu_verif)` hook in retry.rs), and "the
+//! clock advances by d" makes every policy `d*SCALE` older (`verif_age` moves
+//! `last_try` into the past, which is exactly what the passing of time does).
+//! `fail()`, `succeed()`, `can_try()` and `is_down()` are the real ones and do
+//! their real arithmetic on `last_try` / `wait`; a case runs for far less than
+//! one model second, so the jitter of `Instant::now()` cannot change an outcome.
 //!
 //! `c12 --oracle <file>`: prints the real hash / HRW score / connect outcome for
 //! the pools named in <file> (used by the generator, which cannot call Rust).
@@ -28,9 +32,11 @@ const H_SKIP: u64 = 0x736B_6970_5F5F;
 type B = Rc<RefCell<Backend>>;
 
 fn addr_of(i: i128) -> SocketAddr {
-    // 0..=5: loopback ports nobody listens on; 6: an IPv6 loopback address; 7: same ip, other port
+    // 0..=5: loopback ports nobody listens on (a non-blocking connect answers EINPROGRESS = Ok);
+    // 6: an IPv6 loopback address; 7: the IPv4 broadcast address (tcp connect refuses synchronously)
     match i {
         6 => "[::1]:20006".parse().unwrap(),
+        7 => "255.255.255.255:80".parse().unwrap(),
         _ => format!("127.0.0.{}:{}", 1 + (i % 3), 20000 + i).parse().unwrap(),
     }
 }
@@ -75,18 +81,34 @@ fn policy_state(b: &Backend) -> (usize, usize, u64) {
         }
     }
 }
+fn policy_elapsed(b: &Backend) -> u64 {
+    match &b.retry_policy {
+        RetryPolicyWrapper::ExponentialBackoff(p) => p.verif_elapsed().as_secs(),
+    }
+}
+/// keeps `last_try`
 fn policy_set(b: &mut Backend, tries: usize, wait_secs: u64) {
     match &mut b.retry_policy {
         RetryPolicyWrapper::ExponentialBackoff(p) => p.verif_set(tries, Duration::from_secs(wait_secs)),
     }
 }
+fn policy_age(b: &mut Backend, secs: u64) {
+    match &mut b.retry_policy {
+        RetryPolicyWrapper::ExponentialBackoff(p) => p.verif_age(Duration::from_secs(secs)),
+    }
+}
+/// what is left of the current window, in model seconds
+fn remaining(b: &Backend) -> u64 {
+    let (_, _, w) = policy_state(b);
+    let e = policy_elapsed(b);
+    (w.saturating_sub(e) + SCALE - 1) / SCALE
+}
 
 /// the property's eligibility predicate, from the raw fields (not through
 /// `Backend::can_open`, which is what is being checked): healthy, Normal, and
-/// not inside a back-off window (a window is open iff `wait > 0`: windows are
-/// whole model seconds and a case runs for far less than one)
+/// not inside a back-off window (`last_try` + `wait` not yet reached, read through the hook)
 fn own_okay(b: &Backend) -> bool {
-    policy_state(b).2 == 0
+    policy_elapsed(b) >= policy_state(b).2
 }
 fn own_can_open(b: &Backend) -> bool {
     b.health.status == HealthStatus::Healthy && b.status == BackendStatus::Normal && own_okay(b)
@@ -163,6 +185,35 @@ impl St {
             }
         }
     }
+}
+
+/// after a call that may have run `fail()`: did a window start (the policy's wait / tries moved)?
+/// if so check what the implementation drew and substitute the case's window length
+fn after_fail(b: &mut Backend, before: (usize, usize, u64), w: u64, out: &mut Out) -> (bool, usize) {
+    let (t0, _m0, w0) = before;
+    let (t1, m1, w1) = policy_state(b);
+    let started = w1 != w0 || t1 != t0;
+    if started {
+        let hi = std::cmp::max(1u64, 1u64.checked_shl(t0 as u32).unwrap_or(u64::MAX));
+        let okr = if hi == 1 { w1 == 1 } else { (1..hi).contains(&w1) };
+        if !okr {
+            out.viol("backoff-range", &format!("fail() at tries={t0} chose wait={w1}s outside [1,{hi})"));
+        }
+        if t1 != std::cmp::min(t0 + 1, m1) {
+            out.viol("backoff-tries", &format!("fail() moved tries {t0} -> {t1} (max {m1})"));
+        }
+        policy_set(b, t1, w * SCALE);
+        if policy_elapsed(b) >= SCALE {
+            out.viol("backoff-anchor", &format!("a window just started but last_try is {} s old: the window is not anchored at the failure", policy_elapsed(b)));
+        }
+        if w > 0 && !matches!(b.retry_policy.can_try(), Some(RetryAction::WAIT)) {
+            out.viol("backoff-window", "can_try() is not WAIT inside a freshly started back-off window");
+        }
+        if w > 0 && b.can_open() {
+            out.viol("backoff-window", "can_open() is true inside a freshly started back-off window");
+        }
+    }
+    (started, t1)
 }
 
 fn addr_index(a: &SocketAddr) -> i128 {
@@ -311,32 +362,14 @@ fn run(case: &Case, out: &mut Out) {
                 out.obs(&[]);
             }
             "fail" => {
-                // h w : retry_policy.fail(); if a window started, its random length is checked against
-                // the documented range and replaced by w model seconds
+                // h w : the real retry_policy.fail(); if a window started, its random length is checked
+                // against the documented range and replaced by w model seconds
                 let h = a[0].n() as usize;
                 let w = a[1].n() as u64;
                 let mut b = st.handles[h].borrow_mut();
-                let (t0, _m, w0) = policy_state(&b);
+                let before = policy_state(&b);
                 b.retry_policy.fail();
-                let (t1, m1, w1) = policy_state(&b);
-                let started = w1 != w0 || t1 != t0;
-                if started {
-                    let hi = std::cmp::max(1u64, 1u64.checked_shl(t0 as u32).unwrap_or(u64::MAX));
-                    let okr = if hi == 1 { w1 == 1 } else { (1..hi).contains(&w1) };
-                    if !okr {
-                        out.viol("backoff-range", &format!("fail() at tries={t0} chose wait={w1}s outside [1,{hi})"));
-                    }
-                    if t1 != std::cmp::min(t0 + 1, m1) {
-                        out.viol("backoff-tries", &format!("fail() moved tries {t0} -> {t1} (max {m1})"));
-                    }
-                    policy_set(&mut b, t1, w * SCALE);
-                    if w > 0 && !matches!(b.retry_policy.can_try(), Some(RetryAction::WAIT)) {
-                        out.viol("backoff-window", "can_try() is not WAIT inside a freshly started back-off window");
-                    }
-                    if w > 0 && b.can_open() {
-                        out.viol("backoff-window", "can_open() is true inside a freshly started back-off window");
-                    }
-                }
+                let (started, t1) = after_fail(&mut b, before, w, out);
                 out.obs(&[tbool(started), tn(t1)]);
             }
             "succeed" => {
@@ -344,17 +377,22 @@ fn run(case: &Case, out: &mut Out) {
                 out.obs(&[]);
             }
             "force" => {
-                // h tries wait : the hook itself (puts a policy in the down / waiting states directly)
+                // h tries wait : the hook itself (a policy created directly in the down / waiting states)
                 let mut b = st.handles[a[0].n() as usize].borrow_mut();
-                policy_set(&mut b, a[1].n() as usize, a[2].n() as u64 * SCALE);
+                let (_t, m, _w) = policy_state(&b);
+                b.retry_policy = sozu_lib::retry::ExponentialBackoffPolicy::verif_new(
+                    m,
+                    a[1].n() as usize,
+                    Duration::from_secs(a[2].n() as u64 * SCALE),
+                )
+                .into();
                 out.obs(&[]);
             }
             "advance" => {
+                // time passes: every policy (also of backends no longer in any list) gets older
                 let d = a[0].n() as u64;
                 for h in &st.handles {
-                    let mut b = h.borrow_mut();
-                    let (t, _m, w) = policy_state(&b);
-                    policy_set(&mut b, t, w.saturating_sub(d * SCALE));
+                    policy_age(&mut h.borrow_mut(), d * SCALE);
                 }
                 out.obs(&[]);
             }
@@ -501,6 +539,126 @@ fn run(case: &Case, out: &mut Out) {
                 o.extend(st.view(c));
                 out.obs(&o);
             }
+            "connect" => {
+                // h w : Backend::try_connect (what a session does with the backend it was given)
+                let h = a[0].n() as usize;
+                let w = a[1].n() as u64;
+                let mut b = st.handles[h].borrow_mut();
+                let before = policy_state(&b);
+                let r = b.try_connect();
+                let expect_ok = addr_index(&b.address) != 7;
+                let (code, started) = match r {
+                    Ok(stream) => {
+                        drop(stream);
+                        st.shadow[h] += 1;
+                        if !expect_ok {
+                            out.note("invalid-case: environment: connect to the broadcast address did not fail");
+                        }
+                        (0, false)
+                    }
+                    Err(sozu_lib::backends::BackendError::Status(_)) => (1, false),
+                    Err(_) => {
+                        if expect_ok {
+                            out.note("invalid-case: environment: non-blocking connect to a loopback address failed");
+                        }
+                        let (started, _) = after_fail(&mut b, before, w, out);
+                        (2, started)
+                    }
+                };
+                let (t1, _, _) = policy_state(&b);
+                let f1 = b.failures;
+                drop(b);
+                out.obs(&[tn(h), tn(code), tbool(started), tn(t1), tn(f1)]);
+                st.check_counts(out, "inc", Some(h));
+            }
+            "select_conn" | "sticky_conn" => {
+                // c w | c sid w : BackendMap::backend_from_cluster_id / backend_from_sticky_session
+                // (the entry points of the HTTP and TCP sessions: select, then connect)
+                let c = a[0].n();
+                let cname = cluster_of(c);
+                let sticky = op.name == "sticky_conn";
+                let w = if sticky { a[2].n() } else { a[1].n() } as u64;
+                // the eligibility of everybody, before anything happens
+                let list = st.list(c);
+                let snap: Vec<(i128, bool, bool, bool, bool)> = list
+                    .iter()
+                    .map(|b| {
+                        let bb = b.borrow();
+                        (st.hidx(b), own_can_open(&bb), bb.status == BackendStatus::Normal, own_okay(&bb), bb.backup)
+                    })
+                    .collect();
+                let before: Vec<((usize, usize, u64), usize)> =
+                    st.handles.iter().map(|h| (policy_state(&h.borrow()), h.borrow().failures)).collect();
+                let sid = if sticky { format!("s{}", a[1].n()) } else { String::new() };
+                let sticky_first = if sticky {
+                    list.iter().find(|b| b.borrow().sticky_id.as_deref() == Some(sid.as_str())).map(|b| st.hidx(b))
+                } else {
+                    None
+                };
+                let r = if sticky { st.map.backend_from_sticky_session(&cname, &sid) } else { st.map.backend_from_cluster_id(&cname) };
+                let (pick, code) = match r {
+                    Ok((rc, stream)) => {
+                        drop(stream);
+                        let h = st.hidx(&rc);
+                        if h >= 0 {
+                            st.shadow[h as usize] += 1;
+                        }
+                        (h, 0)
+                    }
+                    Err(sozu_lib::backends::BackendError::NoBackendForCluster(_)) => (-2, 3),
+                    Err(_) => {
+                        // the backend that was tried is the one whose failure counter moved
+                        let h = st.handles.iter().enumerate().find(|(i, h)| h.borrow().failures != before[*i].1).map(|(i, _)| i as i128).unwrap_or(-1);
+                        (h, 2)
+                    }
+                };
+                let mut started = false;
+                if pick >= 0 {
+                    let expect_ok = addr_index(&st.handles[pick as usize].borrow().address) != 7;
+                    if (code == 0) != expect_ok {
+                        out.note("invalid-case: environment: connect outcome differs from the address class");
+                    }
+                    if code == 2 {
+                        let mut b = st.handles[pick as usize].borrow_mut();
+                        started = after_fail(&mut b, before[pick as usize].0, w, out).0;
+                    }
+                    // the property, against the state in which the choice was made
+                    match snap.iter().find(|e| e.0 == pick) {
+                        None => out.viol("not-in-cluster", &format!("{}: h{pick} is not in cluster c{c}", op.name)),
+                        Some(&(_, open, normal, okay, backup)) => {
+                            let any_open = snap.iter().any(|e| e.1);
+                            if !normal {
+                                out.viol("not-normal", &format!("{}: h{pick} is not Normal", op.name));
+                            }
+                            if open {
+                                if backup && snap.iter().any(|e| e.1 && !e.4) && Some(pick) != sticky_first {
+                                    out.viol("backup-over-primary", &format!("{}: backup h{pick} while a primary can open", op.name));
+                                }
+                            } else if any_open {
+                                out.viol("ineligible", &format!("{}: h{pick} could not open while another backend could", op.name));
+                            } else if !(normal && okay) {
+                                out.viol("failopen", &format!("{}: fail-open chose h{pick}, not Normal with retry OKAY", op.name));
+                            }
+                        }
+                    }
+                } else if pick == -1 {
+                    out.viol("not-in-cluster", &format!("{}: the connection went to a backend the driver never created", op.name));
+                }
+                if let Some(f) = sticky_first {
+                    let fo = snap.iter().find(|e| e.0 == f).map(|e| e.1).unwrap_or(false);
+                    if fo && pick != f {
+                        out.viol("sticky-loses", &format!("h{f} carries sticky id {sid} and could open, but the connection went to h{pick}"));
+                    }
+                }
+                let (t1, f1) = if pick >= 0 {
+                    let b = st.handles[pick as usize].borrow();
+                    (policy_state(&b).0, b.failures)
+                } else {
+                    (0, 0)
+                };
+                out.obs(&[tn(pick), tn(code), tbool(started), tn(t1), tn(f1)]);
+                st.check_counts(out, "inc", None);
+            }
             "sticky" => {
                 // c s : BackendList::find_sticky
                 let c = a[0].n();
@@ -531,6 +689,7 @@ fn run(case: &Case, out: &mut Out) {
                     if w % SCALE != 0 {
                         out.note("invalid-case: a wait that is not a whole number of model seconds");
                     }
+                    let _ = w;
                     o.push(tn(match b.status {
                         BackendStatus::Normal => 0,
                         BackendStatus::Closing => 1,
@@ -541,7 +700,7 @@ fn run(case: &Case, out: &mut Out) {
                     o.push(tn(b.health.consecutive_failures));
                     o.push(tn(t));
                     o.push(tn(m));
-                    o.push(tn(w / SCALE));
+                    o.push(tn(remaining(&b)));
                     o.push(tn(b.active_connections));
                     o.push(tn(b.active_requests));
                     o.push(tn(b.failures));
